@@ -622,6 +622,20 @@ pub fn install_hooks() {
     steel_rc::verif::install(&RC_HOOKS);
 }
 
+/// Sites at which the stall strategy may set a thread aside: the windows of
+/// the handshake, of world stops, of collections and of thread start.
+pub const STALL_SITES: &[u32] = &[
+    vs::SP_PUBLISH, vs::SP_BEFORE_RETRACT, vs::SP_RETRACTED, vs::SP_EXIT,
+    vs::ES_PUBLISH, vs::ES_AFTER_FINISH, vs::ES_BEFORE_RETRACT, vs::ES_RETRACTED, vs::ES_EXIT,
+    vs::ESO_PUBLISH, vs::ESO_AFTER_FINISH, vs::ESO_BEFORE_RETRACT, vs::ESO_RETRACTED,
+    vs::STOP_BEGIN, vs::STOP_END, vs::RESUME_BEGIN, vs::RESUME_END,
+    vs::SCAN_BEGIN, vs::SCAN_END, vs::ENV_TOUCH_BEGIN, vs::ENV_TOUCH_END,
+    vs::WORLD_STOP_BEGIN, vs::WORLD_STOP_END, vs::HEAP_LOCKED, vs::GC_BEGIN, vs::GC_END,
+    vs::THREAD_REGISTERED, vs::THREAD_BODY_BEGIN, vs::DISPATCH, vs::DISPATCH,
+    vs::WATCHDOG_WOKE, vs::WATCHDOG_FIRE, vs::WATCHDOG_FIRED, vs::WATCHDOG_ARMED,
+    vs::WATCHDOG_BODY_DONE, vs::WATCHDOG_SEND, vs::WATCHDOG_SENT, vs::WATCHDOG_RESUMED,
+];
+
 pub fn hot_site(site: u32) -> bool {
     matches!(
         site,
@@ -688,9 +702,12 @@ pub fn start(spec: &crate::runner::Spec, opts: VmOptions) -> Engine {
     report::install_panic_hook(opts.panic_class);
     *STALE_PROP.lock().unwrap() = opts.property.to_string();
     let mut srng = Rng::derive(spec.seed, spec.index, 2);
-    let mut strategy = sched::Strategy::swarm(&mut srng, opts.expected_steps);
+    let mut strategy = sched::Strategy::swarm_with_stall(&mut srng, opts.expected_steps, STALL_SITES);
     while FAIR_ONLY.load(Ordering::SeqCst) && matches!(strategy.kind, sched::Kind::Pct) {
-        strategy = sched::Strategy::swarm(&mut srng, opts.expected_steps);
+        strategy = sched::Strategy::swarm_with_stall(&mut srng, opts.expected_steps, STALL_SITES);
+    }
+    if FAIR_ONLY.load(Ordering::SeqCst) {
+        strategy.stall_len = strategy.stall_len.min(400);
     }
     report::set_strategy(strategy.describe());
     sched::init(sched::Config {
